@@ -24,6 +24,121 @@ pub fn from_hex(hex: &str) -> Result<Vec<u8>, String> {
 	crate::grin_util::from_hex(hex)
 }
 
+/// Reads a JSON string that must be an even number of ASCII hex digits. The grin_core and
+/// grin_keychain hex decoders the wallet delegates to below slice or unwrap on anything else,
+/// so untrusted strings are validated before they are handed over.
+fn checked_hex_string<'de, D>(deserializer: D) -> Result<String, D::Error>
+where
+	D: Deserializer<'de>,
+{
+	use serde::de::Error;
+	let s = String::deserialize(deserializer)?;
+	let digits = s.trim().trim_start_matches("0x");
+	if digits.len() % 2 != 0 || !digits.chars().all(|c| c.is_ascii_hexdigit()) {
+		return Err(Error::custom("invalid hex string"));
+	}
+	Ok(s)
+}
+
+/// As `secp_ser::blind_from_hex`, refusing invalid hex instead of panicking
+pub fn blind_from_hex<'de, D>(
+	deserializer: D,
+) -> Result<crate::grin_keychain::BlindingFactor, D::Error>
+where
+	D: Deserializer<'de>,
+{
+	use serde::de::IntoDeserializer;
+	let s = checked_hex_string(deserializer)?;
+	crate::grin_core::libtx::secp_ser::blind_from_hex(s.into_deserializer())
+}
+
+/// As `secp_ser::commitment_from_hex`, refusing invalid hex instead of panicking
+pub fn commitment_from_hex<'de, D>(
+	deserializer: D,
+) -> Result<crate::grin_util::secp::pedersen::Commitment, D::Error>
+where
+	D: Deserializer<'de>,
+{
+	use serde::de::IntoDeserializer;
+	let s = checked_hex_string(deserializer)?;
+	crate::grin_core::libtx::secp_ser::commitment_from_hex(s.into_deserializer())
+}
+
+/// As `secp_ser::pubkey_serde`, refusing invalid hex instead of panicking
+pub mod pubkey_serde {
+	use crate::grin_core::libtx::secp_ser;
+	use crate::grin_util::secp::key::PublicKey;
+	use serde::de::IntoDeserializer;
+	use serde::Deserializer;
+
+	pub use crate::grin_core::libtx::secp_ser::pubkey_serde::serialize;
+
+	///
+	pub fn deserialize<'de, D>(deserializer: D) -> Result<PublicKey, D::Error>
+	where
+		D: Deserializer<'de>,
+	{
+		let s = super::checked_hex_string(deserializer)?;
+		secp_ser::pubkey_serde::deserialize(s.into_deserializer())
+	}
+}
+
+/// As `secp_ser::option_sig_serde`, refusing invalid hex instead of panicking
+pub mod option_sig_serde {
+	use crate::grin_core::libtx::secp_ser;
+	use crate::grin_util::secp::Signature;
+	use serde::de::IntoDeserializer;
+	use serde::{Deserialize, Deserializer};
+
+	pub use crate::grin_core::libtx::secp_ser::option_sig_serde::serialize;
+
+	///
+	pub fn deserialize<'de, D>(deserializer: D) -> Result<Option<Signature>, D::Error>
+	where
+		D: Deserializer<'de>,
+	{
+		match Option::<String>::deserialize(deserializer)? {
+			Some(s) => {
+				let s = super::checked_hex_string(s.into_deserializer())?;
+				secp_ser::sig_serde::deserialize(s.into_deserializer()).map(Some)
+			}
+			None => Ok(None),
+		}
+	}
+}
+
+/// As `secp_ser::option_seckey_serde`, refusing invalid hex instead of panicking
+pub mod option_seckey_serde {
+	use crate::grin_util::secp::key::SecretKey;
+	use crate::grin_util::static_secp_instance;
+	use serde::de::{Error, IntoDeserializer};
+	use serde::{Deserialize, Deserializer};
+
+	pub use crate::grin_core::libtx::secp_ser::option_seckey_serde::serialize;
+
+	///
+	pub fn deserialize<'de, D>(deserializer: D) -> Result<Option<SecretKey>, D::Error>
+	where
+		D: Deserializer<'de>,
+	{
+		match Option::<String>::deserialize(deserializer)? {
+			Some(s) => {
+				let s = super::checked_hex_string(s.into_deserializer())?;
+				let bytes = super::from_hex(&s).map_err(Error::custom)?;
+				if bytes.len() < 32 {
+					return Err(Error::invalid_length(bytes.len(), &"32 bytes"));
+				}
+				let static_secp = static_secp_instance();
+				let static_secp = static_secp.lock();
+				SecretKey::from_slice(&static_secp, &bytes[0..32])
+					.map(Some)
+					.map_err(Error::custom)
+			}
+			None => Ok(None),
+		}
+	}
+}
+
 /// Seralizes a byte string into base64
 pub fn as_base64<T, S>(bytes: T, serializer: S) -> Result<S::Ok, S::Error>
 where
